@@ -13,7 +13,12 @@
 (*                -- recorded: every regular file created or modified       *)
 (*                anywhere in the scratch tree (locations from Top), and    *)
 (*                the destination strings seen by the audit hook            *)
-(*   kind "deny": events                                                    *)
+(*   kind "deny": lay = the deny-list world W2/{root, out}; events           *)
+(*      fpersist: everything one factory evaluation persisted through the  *)
+(*                Hydration.make_persister observer, with the save_as form  *)
+(*                given to the FACTORY -- recorded like persist; a write    *)
+(*                the driver's guard refused (destination outside the       *)
+(*                scratch area) is recorded as location <<"<outside>", ..>> *)
 (*      collect : one factory evaluated under a host context with a deny    *)
 (*                configuration -- recorded per candidate item: whether the *)
 (*                file was opened / the command executed                    *)
@@ -66,6 +71,11 @@ DiagPersist ==
     ELSE "WritesUnderOut:written-outside-outdir:" \o
          (IF HasDots(Ev.path) THEN "relpath-dotdot" ELSE "relpath-plain") \o ":saveas-" \o Ev.saveas
 
+(* ---- fpersist (a factory's results persisted by the observer) ----------- *)
+DiagFPersist ==
+    IF ~DstAgrees THEN "R4.destination"
+    ELSE "WritesUnderOut:written-outside-outdir:" \o Ev.factory \o ":saveas-" \o Ev.saveas
+
 (* ---- collect (deny list) ------------------------------------------------ *)
 CfgOf(e) == [files |-> Rng(e.files), commands |-> Rng(e.commands), comps |-> Rng(e.comps)]
 Offending(e) == {i \in DOMAIN e.items : e.items[i].acc /\ DeniedByUser(CfgOf(e), e.comp, [t |-> e.items[i].t, w |-> e.items[i].w])}
@@ -80,18 +90,21 @@ HowDenied(e, it) ==
 
 DiagCollect ==
     LET i == CHOOSE i \in Offending(Ev) : TRUE IN
-    "DenyRespected:" \o Ev.factory \o ":" \o Ev.items[i].t \o ":" \o HowDenied(Ev, Ev.items[i])
+    "DenyRespected:" \o Ev.factory \o ":" \o Ev.items[i].t \o ":" \o HowDenied(Ev, Ev.items[i]) \o
+    (IF Ev.items[i].t = "file" /\ Len(Ev.items[i].w) > 1 THEN ":blank-in-path" ELSE "")
 
 (* ------------------------------------------------------------------------ *)
 Accepts ==
     CASE Ev.ev = "provide" -> ProvideOK
       [] Ev.ev = "persist" -> PersistOK
+      [] Ev.ev = "fpersist" -> PersistOK
       [] Ev.ev = "collect" -> CollectOK
       [] OTHER -> FALSE
 
 Diagnose ==
     CASE Ev.ev = "provide" -> DiagProvide
       [] Ev.ev = "persist" -> DiagPersist
+      [] Ev.ev = "fpersist" -> DiagFPersist
       [] Ev.ev = "collect" -> DiagCollect
       [] OTHER -> "unknown-event"
 
